@@ -64,11 +64,22 @@ SessPacketPlain(S, seq4, msg, key1) ==
   LET signed == IntegPadded(Cat(<< B(<<6, 64>>), Var("sidM"), B(seq4), Len16(msg), msg >>))
   IN  Cat(<< Rmcp, signed, Trunc(Hmac(S.integAlg, key1, signed), S.integLen) >>)
 
+\* 13.8: a response carries the requester's sequence number / LUN byte of the request it answers.  The console is free in
+\* its choice of sequence numbers (the library happens to use 1 throughout); a BMC is not, so the simulated BMC takes the
+\* byte from the request as it received it: message byte 5 of the null-session datagram, or of the decrypted payload
+ReqPlain0 == AesDec(Ref("K2"), Slice(Req, 16, 32), SliceDyn(Req, 32, Slice(Req, 14, 16), 16))
+EchoN == Slice(Req, 20, 21)
+EchoS == Slice(ReqPlain0, 4, 5)
+EchoWith(k2) == Slice(AesDec(k2, Slice(Req, 16, 32), SliceDyn(Req, 32, Slice(Req, 14, 16), 16)), 4, 5)
+MsgRspE(echo, netfnRsp, rsLun, cmd, cc, body) ==
+  LET h1 == <<129, netfnRsp * 4>>
+      h2 == Cat(<< B(<<32>>), IF rsLun = 0 THEN echo ELSE AddByte(echo, 0, rsLun), B(<<cmd, cc>> \o body) >>)
+  IN  Cat(<< B(h1 \o <<Checksum(h1)>>), h2, Cksum(h2) >>)
 \* the same packet for a message whose length depends on the request (rule-driven BMC):
 \* lengths and pads are then computed where the term is evaluated
 DynMsgRsp(netfnRsp, cmd, cc, bodyT) ==
   LET h1 == <<129, netfnRsp * 4>>
-      h2 == Cat(<< B(<<32, 4, cmd, cc>>), bodyT >>)
+      h2 == Cat(<< B(<<32>>), EchoS, B(<<cmd, cc>>), bodyT >>)       \* (used inside sessions only)
   IN  Cat(<< B(h1 \o <<Checksum(h1)>>), h2, Cksum(h2) >>)
 DynSessPacket(S, seq4, msgT, iv) ==
   LET pl     == Cat(<< B(iv), Aes(Ref("K2"), B(iv), DynPadSeq(msgT)) >>)
@@ -80,7 +91,7 @@ DynNullWrapper(ptype, payloadT) == Cat(<< Rmcp, B(<<6, ptype, 0, 0, 0, 0, 0, 0, 
 ReqAuthOk(S) == Eq(Slice(Req, 0 - S.integLen, -1),
                    Trunc(Hmac(S.integAlg, Ref("K1"), Slice(Req, 4, 0 - S.integLen)), S.integLen))
 \* decrypted payload of the request: IV = req[16:32], ciphertext = req[32 : 16+len]
-ReqPlain(S) == AesDec(Ref("K2"), Slice(Req, 16, 32), SliceDyn(Req, 32, Slice(Req, 14, 16), 16))
+ReqPlain(S) == ReqPlain0
 SessionDefs(S) == [SIK |-> SIK(S), K1 |-> K1(S), K2 |-> K2(S)]
 SessionRecipes(S) == [authOK |-> ReqAuthOk(S), plain |-> ReqPlain(S)]
 
@@ -91,11 +102,11 @@ ChunkOf(data, i) == SubSeq(data, 16 * i + 1, IF 16 * i + 16 < Len(data) THEN 16 
 IsCipherReq == And(<< Eq(Slice(Req, 5, 6), B(<<0>>)), Eq(Slice(Req, 17, 18), B(<<24>>)), Eq(Slice(Req, 21, 22), B(<<84>>)) >>)
 CipherRule(data, i) ==
   [rule |-> "chunk", when |-> << IsCipherReq, Eq(Slice(Req, 24, 25), B(<<128 + i>>)) >>,
-   datagrams |-> << Dg(NullWrapper(0, MsgRsp(7, 84, 0, <<14>> \o ChunkOf(data, i))), [kind |-> "chunk", i |-> i]) >>]
+   datagrams |-> << Dg(NullWrapper(0, MsgRspE(EchoN, 7, 0, 84, 0, <<14>> \o ChunkOf(data, i))), [kind |-> "chunk", i |-> i]) >>]
 \* any other index: an empty chunk (the list has ended)
 CipherRuleDefault ==
   [rule |-> "chunk-beyond", when |-> << IsCipherReq >>,
-   datagrams |-> << Dg(NullWrapper(0, MsgRsp(7, 84, 0, <<14>>)), [kind |-> "chunk", i |-> 99]) >>]
+   datagrams |-> << Dg(NullWrapper(0, MsgRspE(EchoN, 7, 0, 84, 0, <<14>>)), [kind |-> "chunk", i |-> 99]) >>]
 CipherRules(data) == [i \in 1..((Len(data) \div 16) + 1) |-> CipherRule(data, i - 1)] \o << CipherRuleDefault >>
 
 CallNewV2Session(S) ==
